@@ -46,9 +46,21 @@ def gen_case(rng, idx, thorough):
             return rng.randrange(0, 3000)
         return rng.randrange(0, 20000)
 
+    drain_timeout_us = 0
+    if idx % 9 == 4:
+        # the backlog at Stop takes longer than the server connection's DrainTimeout option
+        profile, workers, qlen, nsubs = "slowdrain", 1, rng.choice([1, 2, 4]), 1
+        n = rng.randrange(8, 16)
+        drain_timeout_us = rng.choice([20000, 30000, 50000])
+
+        def dur():  # noqa: F811
+            return rng.randrange(10000, 20000)
+
     stop_class = rng.choice(["before", "during", "during", "during_flushed", "after_flush", "after_flush",
                              "after_idle", "after_noflush"])
     sync_stop = rng.random() < 0.5
+    if profile == "slowdrain":
+        stop_class = "after_flush"
     ops = []
     nid = [0]
 
@@ -91,7 +103,7 @@ def gen_case(rng, idx, thorough):
         pub(rng.randrange(1, 4))
         ops.append({"op": "flush"})
     return {"case": idx, "nsubs": nsubs, "workers": workers, "qlen": qlen, "close_conn": rng.random() < 0.5,
-            "ops": ops, "_class": stop_class, "_profile": profile}
+            "drain_timeout_us": drain_timeout_us, "ops": ops, "_class": stop_class, "_profile": profile}
 
 
 # ------------------------------------------------------------------------------------------------
